@@ -46,11 +46,16 @@ class Scripted(System):
                 w.add(tuple(obj), prio, tuple(win), script)
             elif kind == "complete":
                 w.complete()
+            elif kind == "w":          # an operation on the population / the spatial world, performed in the middle of the timestep
+                getattr(w.world, "op_" + act[1])(*act[2:])
 
 
 class SchedWorld:
-    def __init__(self, ids, seed=None, logger=None):
-        if logger == "quiet":
+    def __init__(self, ids, seed=None, logger=None, model=None, events=None, world=None):
+        self.world = world          # a harness.drivers.world.Driver whose operations scripts may call (composition)
+        if model is not None:
+            self.model = model
+        elif logger == "quiet":
             import logging
             lg = logging.getLogger("verif.quiet")       # a user-supplied logger that is not enabled for INFO
             lg.setLevel(logging.WARNING)
@@ -59,7 +64,7 @@ class SchedWorld:
             self.model = Model(seed=seed)
         self.ids = list(ids)
         self.objects = {}      # (id, serial) -> Scripted
-        self.events = []
+        self.events = [] if events is None else events
 
     # ---- projection through the public API ----
     def obs(self):
